@@ -1,91 +1,123 @@
 (* m_hand.ml — mode hand (C12): the by-itself hand-over of Head / Tail / Skip at an arbitrary moment
-   (after polls, limit changes, with a diff of the current burst still parked in the ready buffer).
-   Mirrors /verif/harness/src/m_hand.rs.  Stage 0 is the poll-loop model (PollLoop.poll_u / poll_b)
-   with its state visible, so that Chain.hand_over_u can be applied to it at `H`; after the
-   hand-over only full drains are made, so running stage 0 and then stage 1 to quiescence is the
-   lazy pull-based evaluation of the real streams. *)
+   (after polls, limit changes, with a diff of the current burst still parked in the ready buffer),
+   possibly several times in a row (adapter over adapter over adapter).
+   Mirrors /verif/harness/src/m_hand.rs.
+   Unbatched stacks are evaluated LAZILY, exactly like the real streams: every level is the
+   extracted generic loop ChainPoll.gpoll over the poll function of the level below (the source
+   queue at the bottom), so single polls at any level and hand-overs in the middle of a burst of any
+   level are modelled.  Batched adapters have no ready buffer; batched stacks (two stages) use the
+   scripted loop PollLoop.poll_b and, after the hand-over, full drains only (stage by stage to
+   quiescence = the lazy evaluation for full drains).
+   The hand-over itself is Chain.hand_over_u. *)
 open Model
 open Util
 open M_adapt
 
-(* whether the parked diffs survive the hand-over (the code before the repair F9) *)
+(* whether the parked diffs survive the hand-over (true = the code before the repair F9, cc06c71) *)
 let keep_ready = false
 
-type sim0 = { s : sim; hand : unit -> nat list }
+let fuel = i2n 10000
 
-let mk_sim0 (type st) ~(batched : bool) ~(static_param : bool) ~(st0 : st)
-    ~(on_diff : st -> nat diff -> (st * nat diff list) outcome)
-    ~(on_param : st -> nat -> st * nat diff list option)
-    ~(into_parts : st -> nat list) : sim0 =
-  let iend = ref false and pend = ref static_param in
-  let qp = ref [] in
-  if batched then begin
-    let st = ref st0 and qi = ref [] in
-    { s = { poll = (fun () ->
-          match poll_b on_diff on_param true !st !qi !iend !qp !pend with
-          | Panic -> raise Model_panic
-          | Ok ((((st', qi'), qp'), r), tr) ->
-            st := st'; qi := qi'; qp := qp';
-            (match r with
-             | Pending -> { text = "P"; diffs = []; kind = 'P'; tr }
-             | Ready None -> { text = "N"; diffs = []; kind = 'N'; tr }
-             | Ready (Some ds) -> { text = String.concat "|" (List.map show_diff ds); diffs = ds; kind = 'R'; tr }));
-          push_inner = (fun ds -> qi := !qi @ [ds]);
-          push_param = (fun n -> qp := !qp @ [i2n n]);
-          end_inner = (fun () -> iend := true);
-          end_param = (fun () -> pend := true);
-          inner_ended = (fun () -> !iend);
-          has_param = true };
-      hand = (fun () -> into_parts !st) }
-  end else begin
-    let us = ref { u_st = st0; u_ready = [] } and qi = ref [] in
-    { s = { poll = (fun () ->
-          match poll_u on_diff on_param true !us !qi !iend !qp !pend with
-          | Panic -> raise Model_panic
-          | Ok ((((us', qi'), qp'), r), tr) ->
-            us := us'; qi := qi'; qp := qp';
-            (match r with
-             | Pending -> { text = "P"; diffs = []; kind = 'P'; tr }
-             | Ready None -> { text = "N"; diffs = []; kind = 'N'; tr }
-             | Ready (Some d) -> { text = show_diff d; diffs = [d]; kind = 'R'; tr }));
-          push_inner = (fun ds -> qi := !qi @ ds);
-          push_param = (fun n -> qp := !qp @ [i2n n]);
-          end_inner = (fun () -> iend := true);
-          end_param = (fun () -> pend := true);
-          inner_ended = (fun () -> !iend);
-          has_param = true };
-      hand = (fun () ->
-          let (us', vals) = hand_over_u keep_ready into_parts !us in
-          us := us'; vals) }
-  end
+(* ------------------------------------------------------------------ stages, packed *)
+type 'r stage_k = {
+  k : 'st. st0:'st -> on_diff:('st -> nat diff -> ('st * nat diff list) outcome)
+    -> on_param:('st -> nat -> 'st * nat diff list option) -> has_param:bool
+    -> into_parts:('st -> nat list) option -> iv:nat list option -> 'r
+}
 
-let build0 (st : M_chain.stage) (batched : bool) (vs : nat list) : nat list option * sim0 =
-  let static_param = (st.M_chain.flav = "static") in
+let with_stage (st : M_chain.stage) (vs : nat list) (f : 'r stage_k) : 'r =
   let arg () = i2n (int_of_string st.M_chain.arg) in
   match st.M_chain.kind with
   | "head" ->
     let iv, st0 = (match st.M_chain.flav with
         | "dynamic" -> (None, { h_buf = vs; h_limit = O })
         | _ -> let (v, s) = head_init (arg ()) vs in (Some v, s)) in
-    (iv, mk_sim0 ~batched ~static_param ~st0 ~on_diff:head_on_diff ~on_param:head_update_limit
-       ~into_parts:head_into_parts)
+    f.k ~st0 ~on_diff:head_on_diff ~on_param:head_update_limit ~has_param:true
+      ~into_parts:(Some head_into_parts) ~iv
   | "tail" ->
     let iv, st0 = (match st.M_chain.flav with
         | "dynamic" -> (None, { t_buf = vs; t_limit = O })
         | _ -> let (v, s) = tail_init (arg ()) vs in (Some v, s)) in
-    (iv, mk_sim0 ~batched ~static_param ~st0 ~on_diff:tail_on_diff
-       ~on_param:(fun st n ->
-           if tail_shrink_over_len st.t_limit n (length st.t_buf) then M_chain.add_class "tail_shrink_over_len";
-           tail_update_limit st n)
-       ~into_parts:tail_into_parts)
+    f.k ~st0 ~on_diff:tail_on_diff
+      ~on_param:(fun st n ->
+          if tail_shrink_over_len st.t_limit n (length st.t_buf) then M_chain.add_class "tail_shrink_over_len";
+          tail_update_limit st n)
+      ~has_param:true ~into_parts:(Some tail_into_parts) ~iv
   | "skip" ->
     let iv, st0 = (match st.M_chain.flav with
         | "dynamic" -> (None, skip_init_dynamic vs)
         | _ -> let (v, s) = skip_init (arg ()) vs in (Some v, s)) in
-    (iv, mk_sim0 ~batched ~static_param ~st0 ~on_diff:skip_on_diff ~on_param:skip_update_count
-       ~into_parts:skip_into_parts)
-  | k -> failwith ("stage 0 must be head/tail/skip: " ^ k)
+    f.k ~st0 ~on_diff:skip_on_diff ~on_param:skip_update_count ~has_param:true
+      ~into_parts:(Some skip_into_parts) ~iv
+  | "filter" | "filter_map" ->
+    let mask = int_of_string st.M_chain.arg in
+    let fm = if st.M_chain.kind = "filter" then fm_filter mask else fm_filter_map mask in
+    let (v, st0) = filter_init fm vs in
+    f.k ~st0 ~on_diff:(filter_on_diff fm) ~on_param:(fun s _ -> (s, None)) ~has_param:false
+      ~into_parts:None ~iv:(Some v)
+  | "sort" ->
+    (* distinct values in cases with a sort stage: the unstable sort's answer is the unique order *)
+    let cmp = cmp_of "sort" in
+    let (v, st0) = sort_init (insertion_sort cmp (enumerate_from O vs)) in
+    let on_diff st d =
+      let ans = (match sort_oracle_input st d with None -> [] | Some input -> insertion_sort cmp input) in
+      if sort_truncate_misaligned st d then M_chain.add_class "sort_truncate_misaligned";
+      sort_on_diff cmp st d ans in
+    f.k ~st0 ~on_diff ~on_param:(fun s _ -> (s, None)) ~has_param:false ~into_parts:None ~iv:(Some v)
+  | k -> failwith ("bad stage " ^ k)
 
+(* ------------------------------------------------------------------ lazy levels (unbatched) *)
+type level = {
+  lpoll : unit -> nat diff option poll;      (* raises Model_panic *)
+  lhand : (unit -> nat list) option;
+  lpush_param : int -> unit;
+}
+
+let lazy_level (st : M_chain.stage) (vs : nat list) (lower : unit -> nat diff option poll) : nat list option * level =
+  with_stage st vs { k = fun ~st0 ~on_diff ~on_param ~has_param ~into_parts ~iv ->
+      let us = ref { u_st = st0; u_ready = [] } in
+      let qp = ref [] in
+      let pend = (st.M_chain.flav = "static") in
+      let inner () = Ok (((), lower ()), []) in
+      (iv,
+       { lpoll = (fun () ->
+             match gpoll on_diff on_param has_param O inner fuel !us () !qp pend with
+             | Panic -> raise Model_panic
+             | Ok ((((us', ()), qp'), r), _) -> us := us'; qp := qp'; r);
+         lhand = (match into_parts with
+             | None -> None
+             | Some ip -> Some (fun () ->
+                 let (us', vals) = hand_over_u keep_ready ip !us in
+                 us := us'; vals));
+         lpush_param = (fun n -> qp := !qp @ [i2n n]) }) }
+
+(* ------------------------------------------------------------------ batched stage 0 (scripted loop) *)
+type sim0 = { s : sim; hand : unit -> nat list }
+
+let batched_stage0 (st : M_chain.stage) (vs : nat list) : nat list option * sim0 =
+  with_stage st vs { k = fun ~st0 ~on_diff ~on_param ~has_param:_ ~into_parts ~iv ->
+      let iend = ref false and pend = ref (st.M_chain.flav = "static") in
+      let qp = ref [] in
+      let stt = ref st0 and qi = ref [] in
+      (iv,
+       { s = { poll = (fun () ->
+             match poll_b on_diff on_param true !stt !qi !iend !qp !pend with
+             | Panic -> raise Model_panic
+             | Ok ((((st', qi'), qp'), r), tr) ->
+               stt := st'; qi := qi'; qp := qp';
+               (match r with
+                | Pending -> { text = "P"; diffs = []; kind = 'P'; tr }
+                | Ready None -> { text = "N"; diffs = []; kind = 'N'; tr }
+                | Ready (Some ds) -> { text = ""; diffs = ds; kind = 'R'; tr }));
+             push_inner = (fun ds -> qi := !qi @ [ds]);
+             push_param = (fun n -> qp := !qp @ [i2n n]);
+             end_inner = (fun () -> iend := true);
+             end_param = (fun () -> pend := true);
+             inner_ended = (fun () -> !iend);
+             has_param = true };
+         hand = (fun () -> match into_parts with Some ip -> ip !stt | None -> failwith "stage 0 must be head/tail/skip") }) }
+
+(* ------------------------------------------------------------------ *)
 let run_case (case : string) : string =
   let head, evs =
     match Str.bounded_split_delim (Str.regexp_string " :: ") case 2 with
@@ -98,6 +130,7 @@ let run_case (case : string) : string =
       match String.split_on_char ':' (String.trim s) with
       | k :: f :: a :: _ -> { M_chain.kind = k; flav = f; arg = a; by_self = false }
       | _ -> failwith ("bad stage " ^ s)) (List.tl parts)) in
+  let nst = Array.length stages in
   M_chain.classes := [];
   let events = List.filter (fun s -> s <> "") (List.map String.trim (Str.split (Str.regexp_string " ; ") evs)) in
   let params = Array.map (fun (st : M_chain.stage) ->
@@ -106,113 +139,175 @@ let run_case (case : string) : string =
   let finish () =
     List.iter (fun c -> Buffer.add_string buf (" class=" ^ c)) (List.rev !M_chain.classes);
     Buffer.contents buf in
-  match (try Some (build0 stages.(0) batched vs) with Model_panic -> None) with
-  | None -> Buffer.add_string buf "init=PANIC"; finish ()
-  | Some (iv, sim0) ->
-    let sim1 : sim option ref = ref None in
-    let view = ref (match iv with Some v -> v | None -> []) in
-    let app_ok = ref true in
-    Buffer.add_string buf ("init=" ^ (match iv with Some v -> show_vec v | None -> "-"));
-    let src = ref vs and src_ok = ref true in
-    let expected handed =
-      let v0 = M_chain.stage_view stages.(0) params.(0) !src in
-      if handed then M_chain.stage_view stages.(1) params.(1) v0 else v0 in
-    let apply_items (items : nat diff list list) =
-      List.iter (fun ds -> List.iter (fun d ->
-          if not (ok_in d !view) then app_ok := false;
-          (match apply d !view with Some v -> view := v | None -> app_ok := false)) ds) items in
-    let show_item ds = String.concat "|" (List.map show_diff ds) in
-    let stop = ref false in
-    List.iter (fun ev ->
-        if not !stop then begin
-          Buffer.add_string buf " ; ";
-          if ev = "p" || ev = "D" then begin
-            (try
-               let items = ref [] and fin = ref 'P' in
-               (match !sim1 with
-                | None ->
-                  (* stage 0 alone *)
-                  let continue = ref true and cnt = ref 0 in
-                  while !continue do
-                    incr cnt;
-                    let p = sim0.s.poll () in
-                    (match p.kind with
-                     | 'R' -> items := p.diffs :: !items; fin := 'R'
-                     | c -> fin := c; continue := false);
-                    if ev = "p" || !cnt > 10000 then continue := false
-                  done
-                | Some s1 ->
-                  if ev = "p" then failwith "single polls after the hand-over are not modelled";
-                  (* stage 0 to quiescence, everything handed on, then stage 1 to quiescence *)
-                  let continue = ref true and cnt = ref 0 in
-                  while !continue do
-                    incr cnt;
-                    let p = sim0.s.poll () in
-                    (match p.kind with
-                     | 'R' -> s1.push_inner p.diffs
-                     | 'N' -> s1.end_inner (); continue := false
-                     | _ -> continue := false);
-                    if !cnt > 10000 then continue := false
-                  done;
-                  let continue = ref true and cnt = ref 0 in
-                  while !continue do
-                    incr cnt;
-                    let p = s1.poll () in
-                    (match p.kind with
-                     | 'R' -> items := p.diffs :: !items; fin := 'R'
-                     | c -> fin := c; continue := false);
-                    if !cnt > 10000 then continue := false
-                  done);
-               let items = List.rev !items in
-               apply_items items;
-               Buffer.add_string buf
-                 ((if items = [] then "" else String.concat "+" (List.map show_item items) ^ "+") ^ String.make 1 !fin);
-               if ev = "D" then begin
-                 let handed = (!sim1 <> None) in
-                 let ok = (not !src_ok) || (!view = expected handed) in
-                 Buffer.add_string buf (Printf.sprintf " v=%s ok:stage%d=%s ok:app=%s" (show_vec !view)
-                                          (if handed then 1 else 0) (b2s ok) (b2s ((not !src_ok) || !app_ok)))
-               end
-             with Model_panic ->
-               Buffer.add_string buf ("PANIC" ^ (if !src_ok then " ok:nopanic=0" else ""));
-               stop := true)
-          end else if ev = "H" then begin
-            if !sim1 <> None then Buffer.add_string buf "."
-            else
+  let src = ref vs and src_ok = ref true in
+  let level = ref 0 in
+  let view = ref [] and app_ok = ref true in
+  let expected () =
+    let below = ref !src in
+    for k = 0 to !level do below := M_chain.stage_view stages.(k) params.(k) !below done;
+    !below in
+  let apply_items (items : nat diff list list) =
+    List.iter (fun ds -> List.iter (fun d ->
+        if not (ok_in d !view) then app_ok := false;
+        (match apply d !view with Some v -> view := v | None -> app_ok := false)) ds) items in
+  let show_item ds = String.concat "|" (List.map show_diff ds) in
+  let src_event ev =
+    let ds = if starts_with "d:" ev then [parse_diff (after "d:" ev)]
+      else List.map parse_diff (String.split_on_char '|' (after "b:" ev)) in
+    List.iter (fun d ->
+        if not (ok_in d !src) then src_ok := false;
+        match apply d !src with Some s -> src := s | None -> src_ok := false) ds;
+    ds in
+  let drain_report items fin ev =
+    apply_items items;
+    Buffer.add_string buf
+      ((if items = [] then "" else String.concat "+" (List.map show_item items) ^ "+") ^ String.make 1 fin);
+    if ev = "D" then begin
+      let ok = (not !src_ok) || (!view = expected ()) in
+      Buffer.add_string buf (Printf.sprintf " v=%s ok:stage%d=%s ok:app=%s" (show_vec !view)
+                               !level (b2s ok) (b2s ((not !src_ok) || !app_ok)))
+    end in
+  let stop = ref false in
+  let panic_out what =
+    Buffer.add_string buf (what ^ (if !src_ok then " ok:nopanic=0" else "")); stop := true in
+  if not batched then begin
+    (* ---------------- unbatched: lazy stack ---------------- *)
+    let q : (nat diff list * bool) ref = ref ([], false) in
+    let source () =
+      (match queue_inner !q with
+       | Ok ((q', r), _) -> q := q'; r
+       | Panic -> raise Model_panic) in
+    match (try Some (lazy_level stages.(0) vs source) with Model_panic -> None) with
+    | None -> Buffer.add_string buf "init=PANIC"; finish ()
+    | Some (iv, l0) ->
+      let levels = ref [| l0 |] in
+      let top () = !levels.(!level) in
+      view := (match iv with Some v -> v | None -> []);
+      Buffer.add_string buf ("init=" ^ (match iv with Some v -> show_vec v | None -> "-"));
+      List.iter (fun ev ->
+          if not !stop then begin
+            Buffer.add_string buf " ; ";
+            if ev = "p" || ev = "D" then begin
               (try
-                 let vals = sim0.hand () in
-                 let (iv1, _, s1) = M_chain.build_stage stages.(1) batched vals in
-                 sim1 := Some s1;
-                 Buffer.add_string buf (Printf.sprintf "H=%s/%s" (show_vec vals)
-                                          (match iv1 with Some v -> show_vec v | None -> "-"));
-                 view := (match iv1 with Some v -> v | None -> []);
-                 app_ok := true
-               with Model_panic ->
-                 Buffer.add_string buf ("H=PANIC" ^ (if !src_ok then " ok:nopanic=0" else ""));
-                 stop := true)
-          end else if starts_with "d:" ev then begin
-            let d = parse_diff (after "d:" ev) in
-            if not (ok_in d !src) then src_ok := false;
-            (match apply d !src with Some s -> src := s | None -> src_ok := false);
-            sim0.s.push_inner [d]; Buffer.add_string buf "."
-          end else if starts_with "b:" ev then begin
-            let ds = List.map parse_diff (String.split_on_char '|' (after "b:" ev)) in
-            List.iter (fun d ->
-                if not (ok_in d !src) then src_ok := false;
-                match apply d !src with Some s -> src := s | None -> src_ok := false) ds;
-            sim0.s.push_inner ds; Buffer.add_string buf "."
-          end else if ev.[0] = 'l' then begin
-            (match String.split_on_char ':' (String.sub ev 1 (String.length ev - 1)) with
-             | [k; v] ->
-               let k = int_of_string k and v = int_of_string v in
-               params.(k) <- Some v;
-               if k = 0 then sim0.s.push_param v
-               else (match !sim1 with Some s1 -> s1.push_param v | None -> failwith "l1 before H")
-             | _ -> failwith ev);
-            Buffer.add_string buf "."
-          end else if ev = "es" then (sim0.s.end_inner (); Buffer.add_string buf ".")
-          else failwith ("bad event " ^ ev)
-        end) events;
-    finish ()
+                 let items = ref [] and fin = ref 'P' and continue = ref true and cnt = ref 0 in
+                 while !continue do
+                   incr cnt;
+                   (match (top ()).lpoll () with
+                    | Ready (Some d) -> items := [d] :: !items; fin := 'R'
+                    | Ready None -> fin := 'N'; continue := false
+                    | Pending -> fin := 'P'; continue := false);
+                   if ev = "p" || !cnt > 10000 then continue := false
+                 done;
+                 drain_report (List.rev !items) !fin ev
+               with Model_panic -> panic_out "PANIC")
+            end else if ev = "H" then begin
+              match (top ()).lhand with
+              | Some hand when !level + 1 < nst ->
+                (try
+                   let vals = hand () in
+                   let lower = (top ()).lpoll in
+                   let (iv1, l1) = lazy_level stages.(!level + 1) vals lower in
+                   levels := Array.append !levels [| l1 |];
+                   incr level;
+                   Buffer.add_string buf (Printf.sprintf "H=%s/%s" (show_vec vals)
+                                            (match iv1 with Some v -> show_vec v | None -> "-"));
+                   view := (match iv1 with Some v -> v | None -> []);
+                   app_ok := true
+                 with Model_panic -> panic_out "H=PANIC")
+              | _ -> Buffer.add_string buf "."
+            end else if starts_with "d:" ev || starts_with "b:" ev then begin
+              let ds = src_event ev in
+              q := (fst !q @ ds, snd !q); Buffer.add_string buf "."
+            end else if ev.[0] = 'l' then begin
+              (match String.split_on_char ':' (String.sub ev 1 (String.length ev - 1)) with
+               | [k; v] ->
+                 let k = int_of_string k and v = int_of_string v in
+                 params.(k) <- Some v;
+                 if k < Array.length !levels then !levels.(k).lpush_param v
+                 else failwith "limit of a stage that is not attached yet"
+               | _ -> failwith ev);
+              Buffer.add_string buf "."
+            end else if ev = "es" then (q := (fst !q, true); Buffer.add_string buf ".")
+            else failwith ("bad event " ^ ev)
+          end) events;
+      finish ()
+  end else begin
+    (* ---------------- batched: two stages, scripted loops ---------------- *)
+    match (try Some (batched_stage0 stages.(0) vs) with Model_panic -> None) with
+    | None -> Buffer.add_string buf "init=PANIC"; finish ()
+    | Some (iv, sim0) ->
+      let sim1 : sim option ref = ref None in
+      view := (match iv with Some v -> v | None -> []);
+      Buffer.add_string buf ("init=" ^ (match iv with Some v -> show_vec v | None -> "-"));
+      List.iter (fun ev ->
+          if not !stop then begin
+            Buffer.add_string buf " ; ";
+            if ev = "p" || ev = "D" then begin
+              (try
+                 let items = ref [] and fin = ref 'P' in
+                 (match !sim1 with
+                  | None ->
+                    let continue = ref true and cnt = ref 0 in
+                    while !continue do
+                      incr cnt;
+                      let p = sim0.s.poll () in
+                      (match p.kind with
+                       | 'R' -> items := p.diffs :: !items; fin := 'R'
+                       | c -> fin := c; continue := false);
+                      if ev = "p" || !cnt > 10000 then continue := false
+                    done
+                  | Some s1 ->
+                    if ev = "p" then failwith "batched: single polls after the hand-over are not modelled";
+                    let continue = ref true and cnt = ref 0 in
+                    while !continue do
+                      incr cnt;
+                      let p = sim0.s.poll () in
+                      (match p.kind with
+                       | 'R' -> s1.push_inner p.diffs
+                       | 'N' -> s1.end_inner (); continue := false
+                       | _ -> continue := false);
+                      if !cnt > 10000 then continue := false
+                    done;
+                    let continue = ref true and cnt = ref 0 in
+                    while !continue do
+                      incr cnt;
+                      let p = s1.poll () in
+                      (match p.kind with
+                       | 'R' -> items := p.diffs :: !items; fin := 'R'
+                       | c -> fin := c; continue := false);
+                      if !cnt > 10000 then continue := false
+                    done);
+                 drain_report (List.rev !items) !fin ev
+               with Model_panic -> panic_out "PANIC")
+            end else if ev = "H" then begin
+              if !sim1 <> None || nst < 2 then Buffer.add_string buf "."
+              else
+                (try
+                   let vals = sim0.hand () in
+                   let (iv1, _, s1) = M_chain.build_stage stages.(1) batched vals in
+                   sim1 := Some s1;
+                   incr level;
+                   Buffer.add_string buf (Printf.sprintf "H=%s/%s" (show_vec vals)
+                                            (match iv1 with Some v -> show_vec v | None -> "-"));
+                   view := (match iv1 with Some v -> v | None -> []);
+                   app_ok := true
+                 with Model_panic -> panic_out "H=PANIC")
+            end else if starts_with "d:" ev || starts_with "b:" ev then begin
+              let ds = src_event ev in
+              sim0.s.push_inner ds; Buffer.add_string buf "."
+            end else if ev.[0] = 'l' then begin
+              (match String.split_on_char ':' (String.sub ev 1 (String.length ev - 1)) with
+               | [k; v] ->
+                 let k = int_of_string k and v = int_of_string v in
+                 params.(k) <- Some v;
+                 if k = 0 then sim0.s.push_param v
+                 else (match !sim1 with Some s1 -> s1.push_param v | None -> failwith "l1 before H")
+               | _ -> failwith ev);
+              Buffer.add_string buf "."
+            end else if ev = "es" then (sim0.s.end_inner (); Buffer.add_string buf ".")
+            else failwith ("bad event " ^ ev)
+          end) events;
+      finish ()
+  end
 
 let run_line (line : string) = print_string (run_case line); print_newline ()
